@@ -1,95 +1,24 @@
-(* Executable Qc instance of the Gaussian / prior / solver model with encoders
-   for the correspondence harness. *)
+(* Qc instance of the generic run functions, evaluated by vm_compute. *)
 From Coq Require Import List ZArith QArith Qcanon Bool.
 From PD Require Import Base.Field Base.Matrix Base.Solve Model.Gauss Model.Poly
-  Model.Prior Model.Solver Run.Show.
+  Model.Prior Model.Solver Run.Show Run.GenRun.
 Import ListNotations.
 
 Definition QcMat := @mat Qc.
-Definition flat_mat (n m : nat) (A : QcMat) : list Qc :=
-  flat_map (fun i => map (mget A i) (seq 0 m)) (seq 0 n).
-Definition enc_normal (N c : nat) (rv : @normal Qc) : list Qc :=
-  flat_mat N c (n_mean rv) ++ flat_mat N N (n_cov rv).
-(* a conditional is reported in PLAIN form (after preconditioner_apply) *)
-Definition enc_cond (nin nout c : nat) (K : @cond Qc) : list Qc :=
-  let P := c_plain nin nout c K in
-  flat_mat nout nin (c_A P) ++ flat_mat nout c (c_b P) ++ flat_mat nout nout (c_Q P).
-
 Definition qinv : nat -> QcMat -> option QcMat := minv.
+(* Qc-specialised constructors (so that case terms need no type annotations) *)
+Definition mkNq := @mkN Qc.
+Definition mkCq := @mkC Qc.
+Definition mkOdeq := @mkOde Qc.
+Definition mkCfgq := @mkCfg Qc.
+Definition mk_stateq := @mk_state Qc.
+Definition q0 : Qc := Q2Qc 0.
 
-(* C08: operations on one block.  op: 0 apply, 1 marginalise, 2 merge, 3 revert,
-   4 plain, 5 whitened rms^2 of x under rv *)
-Definition c08_run (op nin nmid nout c : nat) (K1 K2 : @cond Qc) (rv : @normal Qc)
-           (x : QcMat) : list Z :=
-  showQc (match op with
-  | 0 => Some (enc_normal nout c (c_apply nin nout c K1 x))
-  | 1 => Some (enc_normal nout c (c_marg nin nout c K1 rv))
-  | 2 => Some (enc_cond nin nout c (c_merge nin nmid nout c K1 K2))
-  | 3 => match c_revert qinv nin nout c K1 rv with
-         | None => None
-         | Some (obs, bw) => Some (enc_normal nout c obs ++ enc_cond nout nin c bw)
-         end
-  | 4 => Some (enc_cond nin nout c K1)
-  | _ => match whitened_rms2 qinv nin c rv x with None => None | Some r => Some [r] end
-  end)%nat.
-
-(* C09: IWP transition in plain form.  kind 0 dense (base2 per dimension),
-   kind 1 one (q+1)-block with c columns *)
-Definition c09_transition (kind q d : nat) (base2 : list Qc) (dt out2 : Qc) : list Z :=
-  showQc (match kind with
-  | O => Some (enc_cond (S q * d) (S q * d) 1 (iwp_transition_dense q d base2 dt out2))
-  | _ => Some (enc_cond (S q) (S q) d (iwp_transition_1d q d dt (vget base2 0 * out2)))
-  end).
-(* merge of transitions over h1 then h2 (plain form) *)
-Definition c09_merge (q : nat) (h1 h2 s2 : Qc) : list Z :=
-  showQc (Some (enc_cond (S q) (S q) 1
-    (c_merge (S q) (S q) (S q) 1 (iwp_transition_1d q 1 h2 s2) (iwp_transition_1d q 1 h1 s2)))).
-Definition c09_closed (q : nat) (h s2 : Qc) : list Z :=
-  showQc (Some (flat_mat (S q) (S q) (iwp_A_closed q h) ++ flat_mat (S q) (S q) (iwp_Q_closed q h s2))).
-
-(* C02..: fixed-grid solve.  Output: per time point, per block: mean, cov;
-   then per step the squared output scale(s) of the state, then the final
-   calibrated squared scale. *)
-Definition enc_fnormal (s : shape) (rv : list (@normal Qc)) : list Qc :=
-  flat_map (enc_normal (sh_N s) (sh_c s)) rv.
-
-Definition fixed_grid_run (cf : @config Qc) (t0 : Qc) (u0 : list (@normal Qc)) (dts : list Qc)
-  : list Z :=
-  showQc (match solve_fixed_grid qinv cf t0 u0 dts with
-  | None => None
-  | Some (margs, sts) =>
-    let s := cf_shape cf in
-    Some (flat_map (enc_fnormal s) margs
-          ++ flat_map (fun st => st_out2 st) sts
-          ++ final_scale2 cf (last sts (solver_init cf t0 u0))
-                          (st_nsteps (last sts (solver_init cf t0 u0))))
-  end).
-
-(* ---- one-step refinement along the implementation's trajectory ---- *)
-Definition mk_state (cf : @config Qc) (t : Qc) (u : list (@normal Qc)) (pc : list (@cond Qc))
-           (out2 run2 : list Qc) (ndata nsteps : nat) : @sstate Qc :=
-  mkSt t u (mkPost u pc) out2 run2 ndata nsteps [].
-
-Definition is_smoother (st : strat) : bool :=
-  match st with Filter => false | _ => true end.
-
-Definition enc_fcond (s : shape) (K : list (@cond Qc)) : list Qc :=
-  flat_map (enc_cond (sh_N s) (sh_N s) (sh_c s)) K.
-
-Definition enc_state (cf : @config Qc) (st : @sstate Qc) : list Qc :=
-  let s := cf_shape cf in
-  enc_fnormal s (st_u st)
-  ++ (if is_smoother (cf_strat cf) then enc_fcond s (p_cond (st_post st)) else [])
-  ++ st_out2 st ++ st_run2 st.
-
-Definition step_run (cf : @config Qc) (st : @sstate Qc) (dt : Qc) : list Z :=
-  showQc (match solver_step qinv cf st dt with
-          | None => None
-          | Some st' => Some (enc_state cf st')
-          end).
-
-(* userfriendly_output on given states *)
-Definition finalize_run (cf : @config Qc) (st0 : @sstate Qc) (sts : list (@sstate Qc))
-           (st1 : @sstate Qc) : list Z :=
-  showQc (Some (flat_map (enc_fnormal (cf_shape cf)) (finalize cf st0 sts st1)
-                ++ final_scale2 cf st1 (st_nsteps (last sts st0)))).
+Definition c08_run op nin nmid nout c K1 K2 rv x := showQc (@g_c08 Qc _ op nin nmid nout c K1 K2 rv x).
+Definition c09_transition kind q d base2 dt out2 := showQc (@g_c09_transition Qc _ kind q d base2 dt out2).
+Definition c09_merge q h1 h2 s2 := showQc (@g_c09_merge Qc _ q h1 h2 s2).
+Definition c09_closed q h s2 := showQc (@g_c09_closed Qc _ q h s2).
+Definition fixed_grid_run cf t0 u0 dts := showQc (@g_fixed_grid Qc _ cf t0 u0 dts).
+Definition step_run cf st dt := showQc (@g_step Qc _ cf st dt).
+Definition finalize_run cf st0 sts st1 := showQc (@g_finalize Qc _ cf st0 sts st1).
+Definition spec_smooth_run cf st0 sts dts := showQc (@g_spec_smooth Qc _ cf st0 sts dts).
